@@ -255,6 +255,32 @@ func genC10(r *sim.Rng, tier string, idx int) *GCase {
 	if r.Chance(1, 3) {
 		c.Files = append(c.Files, genPlainFile(r, "unrelated.keep", 100))
 	}
+	if len(v.Files) == 1 && !v.Stdout && r.Chance(1, 5) {
+		// a second operand in the same invocation, before or after the first:
+		// whatever the run leaves of the one must not depend on what happened
+		// to the other (every operand gets its own judge)
+		var f2 FileSpec
+		if !v.Decompress {
+			f2 = genPlainFile(r, "zz second", 2000)
+		} else {
+			ext := map[string]string{"xz": ".xz", "lzma": ".lzma"}[format]
+			f2 = FileSpec{Name: "zz second" + ext, Mode: 0o644, Kind: "stream", Stream: genCompressedStream(r, format, 2000)}
+			switch r.Intn(4) {
+			case 0:
+				f2.Kind = "cut"
+				f2.Cut = cutFor(r, f2.Stream)
+			case 1:
+				pl := sim.GenPayload(r, 300)
+				f2.Kind, f2.Payload, f2.Stream = "garbage", &pl, nil
+			}
+		}
+		c.Files = append(c.Files, f2)
+		if r.Bool() {
+			v.Files = []string{in, f2.Name}
+		} else {
+			v.Files = []string{f2.Name, in}
+		}
+	}
 	c.Runs = []Inv{v}
 	return c
 }
@@ -360,12 +386,47 @@ type c10Judge struct {
 	orig    []byte
 	init    fsState
 	scClass string
+	// multi: the invocation has several operands; names are the paths that
+	// belong to this one (input, referent, target, temporary names), foreign
+	// the paths of the others
+	multi   bool
+	names   map[string]bool
+	foreign map[string]bool
 }
 
-func newC10Judge(c *GCase) *c10Judge {
+func newC10Judge(c *GCase) *c10Judge { return newC10JudgeAt(c, 0) }
+
+// c10Judges returns one judge per distinct operand of the last invocation.
+func c10Judges(c *GCase) []*c10Judge {
+	v := &c.Runs[len(c.Runs)-1]
+	seen := map[string]bool{}
+	var js []*c10Judge
+	for k, f := range v.Files {
+		if !seen[f] {
+			seen[f] = true
+			js = append(js, newC10JudgeAt(c, k))
+		}
+	}
+	if len(js) > 1 {
+		for _, j := range js {
+			j.multi = true
+			j.foreign = map[string]bool{}
+			for _, o := range js {
+				if o != j {
+					for n := range o.names {
+						j.foreign[n] = true
+					}
+				}
+			}
+		}
+	}
+	return js
+}
+
+func newC10JudgeAt(c *GCase, k int) *c10Judge {
 	w0 := buildWorld(c)
 	v := &c.Runs[len(c.Runs)-1]
-	j := &c10Judge{c: c, v: v, init: stateOf(w0), in: v.Files[0]}
+	j := &c10Judge{c: c, v: v, init: stateOf(w0), in: v.Files[k]}
 	j.e = modelOperand(v, j.init, j.in)
 	dataName := j.in // the file that holds the operand's bytes
 	if f := j.init[j.in]; f != nil && f.link != "" {
@@ -389,6 +450,15 @@ func newC10Judge(c *GCase) *c10Judge {
 	mode := "compress"
 	if v.Decompress {
 		mode = "decompress"
+	}
+	j.names = map[string]bool{j.in: true}
+	if f := j.init[j.in]; f != nil && f.link != "" {
+		j.names[f.link] = true
+	}
+	for _, e := range []*Expect{&j.e, j.alt} {
+		if e != nil && e.Target != "" {
+			j.names[e.Target], j.names[e.Target+".compress"], j.names[e.Target+".decompress"] = true, true, true
+		}
 	}
 	j.scClass = mode
 	if j.e.Fail {
@@ -466,7 +536,7 @@ func (j *c10Judge) judgeWith(res RunResult, plan simos.Plan, planTag string) *si
 	}
 	// unrelated files are never touched
 	for name, f := range j.init {
-		if name == j.in || name == tgt || strings.HasSuffix(name, ".compress") || strings.HasSuffix(name, ".decompress") {
+		if name == j.in || name == tgt || strings.HasSuffix(name, ".compress") || strings.HasSuffix(name, ".decompress") || j.foreign[name] {
 			continue
 		}
 		n := w.Get(name)
@@ -482,6 +552,21 @@ func (j *c10Judge) judgeWith(res RunResult, plan simos.Plan, planTag string) *si
 	for k, n := range w.Fired {
 		if strings.HasPrefix(k, "fail-") || k == "read-EIO" {
 			fired += n
+		}
+	}
+	if j.multi {
+		// only the failures that struck an operation on this operand's paths
+		fired = 0
+		for _, o := range w.Ops {
+			if o.Err == "" || o.Err == "EEXIST" || o.Err == "ENOENT" || (o.Mut == 0 && o.Kind != "read") {
+				continue // no failure, the kernel's regular answer, or a metadata call (no exit status demanded for those)
+			}
+			for n := range j.names {
+				if o.Path == n || strings.HasPrefix(o.Path, n+" -> ") || strings.HasSuffix(o.Path, " -> "+n) {
+					fired++
+					break
+				}
+			}
 		}
 	}
 	mustFail := j.e.Fail || fired > 0
@@ -516,7 +601,7 @@ func (j *c10Judge) judgeWith(res RunResult, plan simos.Plan, planTag string) *si
 	}
 	// no temporary file remains (pre-existing stale ones are not gxz's)
 	for _, t := range tempNames(w) {
-		if _, was := j.init[t]; was {
+		if _, was := j.init[t]; was || j.foreign[t] {
 			continue
 		}
 		// gxz cannot remove a file whose removal the (simulated) kernel refuses
@@ -534,7 +619,7 @@ func (j *c10Judge) judgeWith(res RunResult, plan simos.Plan, planTag string) *si
 	// a failing operand must not create files under names it might have targeted
 	if j.e.Fail {
 		for _, n := range w.Names() {
-			if _, was := j.init[n]; !was && !strings.HasSuffix(n, ".compress") && !strings.HasSuffix(n, ".decompress") {
+			if _, was := j.init[n]; !was && !strings.HasSuffix(n, ".compress") && !strings.HasSuffix(n, ".decompress") && !j.foreign[n] {
 				return sim.Viol("partial-target", site+":unexpected-file", "failing run created %q", n)
 			}
 		}
@@ -550,7 +635,22 @@ func (j *c10Judge) why(fired int) string {
 }
 
 func runC10(c *GCase, x *sim.Ctx) *sim.Violation {
-	j := newC10Judge(c)
+	js := c10Judges(c)
+	j := js[0]
+	if len(js) > 1 {
+		x.Probe("several-operands")
+	}
+	judgeAll := func(res RunResult, plan simos.Plan, tag string) *sim.Violation {
+		for k, jk := range js {
+			if v := jk.judge(res, plan, tag); v != nil {
+				if len(js) > 1 {
+					v.Detail = fmt.Sprintf("operand %d of %d (%q): %s", k+1, len(js), jk.in, v.Detail)
+				}
+				return v
+			}
+		}
+		return nil
+	}
 	x.Shape(j.scClass)
 	w0 := buildWorld(c)
 	// earlier invocations of the history run fault-free
@@ -572,7 +672,7 @@ func runC10(c *GCase, x *sim.Ctx) *sim.Violation {
 	x.Ev("exit=%d", base.Exit)
 	x.Shape(strings.Join(kinds, ",") + fmt.Sprintf(":exit%d", base.Exit))
 	x.Count("scenario."+j.scClass, 1)
-	if v := j.judge(base, simos.Plan{}, "none"); v != nil {
+	if v := judgeAll(base, simos.Plan{}, "none"); v != nil {
 		return v
 	}
 	if !c.Enumerate {
@@ -582,7 +682,7 @@ func runC10(c *GCase, x *sim.Ctx) *sim.Violation {
 			res := invoke(wp, args)
 			x.Eval(1)
 			x.Nontrivial(1)
-			return j.judge(res, c.Plan, planName(c.Plan, kinds))
+			return judgeAll(res, c.Plan, planName(c.Plan, kinds))
 		}
 		return nil
 	}
@@ -610,7 +710,7 @@ func runC10(c *GCase, x *sim.Ctx) *sim.Violation {
 			x.Count("plan-not-reached", 1)
 		}
 		x.Ev("plan %s -> exit=%d killed=%v names=%v", tag, res.Exit, res.Killed, wp.Names())
-		if v := j.judge(res, p, tag); v != nil {
+		if v := judgeAll(res, p, tag); v != nil {
 			nc := *c
 			nc.HasOnly, nc.Only = true, pi
 			v.Narrow = &nc
